@@ -87,6 +87,12 @@ add('C18',
     'Does not execute transformed programs; the evaluation-order table is frozen from the language reference.',
     'DESIGN.md section 4, C18')
 
+add('C05',
+    'ASDL field-type abstract interpretation of the graph builder\'s handlers; exhaustiveness of statement handlers against the interpreter grammar; path enumeration with per-family stack simulation for enter/exit pairing; CFG dominance for the try-scope ordering; call-shape and loop-exit analysis of the jump API and guard collectors; who-may-write and same-block checks for edge mirroring; in-place-shrink check of the leaf set',
+    'Decides the structural necessary conditions of an over-approximating, well-formed graph: every in-scope statement kind gets a node; bookkeeping of statements, lexical scopes and sections is balanced on every path; a try leaves the scope stack before its finally body (jumps in finally) — and should stay on it during handlers, which the unchanged tree violates (listed known finding F15); return/break/raise/continue use the jump API with guards collected from every enclosing try up to the right statement kind; next/prev/forward_edges are written together only by the connecting primitive and statement-level edges derive from them; the leaf set is never shrunk in place.',
+    'Does not decide that the leaf/finally-subgraph algorithm yields every executable path for every nesting; exception flow from calls is exempt by the property.',
+    'DESIGN.md section 4, C05')
+
 NOT_APPLICABLE = {
     'C12': 'quantifies over run-time tracebacks, generated line layout and source-map contents, which exist only after the pipeline has run on a program; the only shape-level clause (exception re-creation table) is too small a part to claim the property through (DESIGN.md section 5)',
 }
